@@ -187,6 +187,64 @@ FIELD = {'on': False, 'p': (1 << 61) - 1, 'vals': {}, 'rng': None, 'decide': Non
 _ONE = None   # set below (Poly.const(1))
 
 
+_P61 = (1 << 61) - 1
+
+
+class Dual:
+    """a + b*eps in GF(p)[eps]/(eps^2): first-order automatic differentiation of the abstract program
+    with respect to the symbols listed in FIELD['dual'] (forward mode, exact in the field)."""
+    __slots__ = ('a', 'b')
+    def __init__(self, a, b=0):
+        self.a, self.b = a % _P61, b % _P61
+    @staticmethod
+    def of(x):
+        return x if isinstance(x, Dual) else Dual(x, 0)
+    def __add__(self, o):
+        o = Dual.of(o)
+        return Dual(self.a + o.a, self.b + o.b)
+    __radd__ = __add__
+    def __neg__(self):
+        return Dual(-self.a, -self.b)
+    def __sub__(self, o):
+        return self + (-Dual.of(o))
+    def __rsub__(self, o):
+        return Dual.of(o) + (-self)
+    def __mul__(self, o):
+        o = Dual.of(o)
+        return Dual(self.a * o.a, self.a * o.b + self.b * o.a)
+    __rmul__ = __mul__
+    def __mod__(self, m):
+        return self
+    def inv(self):
+        if self.a == 0:
+            raise OutOfFragment('division by a value that vanishes at the expansion point (dual part only)')
+        ia = pow(self.a, _P61 - 2, _P61)
+        return Dual(ia, -self.b * ia * ia)
+    def __pow__(self, k, mod=None):
+        r, base, k = Dual(1, 0), self, int(k)
+        while k:
+            if k & 1:
+                r = r * base
+            base = base * base
+            k >>= 1
+        return r
+    def __eq__(self, o):
+        o = Dual.of(o) if isinstance(o, (int, Dual)) else None
+        return o is not None and self.a == o.a and self.b == o.b
+    def __ne__(self, o):
+        return not self.__eq__(o)
+    def __hash__(self):
+        return hash((self.a, self.b)) if self.b else hash(self.a)
+    def __repr__(self):
+        return '%d+%d*eps' % (self.a, self.b)
+
+
+def dual_parts(v):
+    """(value, derivative) images of an AVN value in field mode."""
+    fv = Rat.lift(v).fv
+    return (fv.a, fv.b) if isinstance(fv, Dual) else (fv, 0)
+
+
 def field_mode(seed=0, decide=None, bool_default=None):
     """Switch the value domain to GF(p) images.  bool_default fixes the image of every boolean atom
     the scenario oracle leaves undecided (1 = every undecided gate open, 0 = closed, None = random)."""
@@ -198,6 +256,8 @@ def field_mode(seed=0, decide=None, bool_default=None):
     FIELD['rng'] = random.Random(0xB8A5 ^ (seed * 2654435761 & 0xFFFFFFFF))
     FIELD['seed'] = seed
     FIELD['decide'] = decide
+    FIELD['dual'] = {}
+    FIELD['trig'] = {}
 
 
 def exact_mode():
@@ -217,6 +277,15 @@ def field_sqrt(x):
     if not FIELD.get('sqrt_axiom'):
         return uf('sqrt', x)
     p = FIELD['p']
+    if isinstance(x.fv, Dual):
+        a, b = x.fv.a, x.fv.b
+        r = pow(a, (p + 1) // 4, p)
+        if r * r % p != a:
+            raise NonResidue()
+        r = min(r, p - r)
+        if r == 0:
+            raise OutOfFragment('sqrt of a value that vanishes at the expansion point')
+        return Rat._f(Dual(r, b * pow(2 * r, p - 2, p)))
     r = pow(x.fv, (p + 1) // 4, p)
     if r * r % p != x.fv:
         raise NonResidue()
@@ -225,6 +294,11 @@ def field_sqrt(x):
 
 def _finv(a):
     p = FIELD['p']
+    if isinstance(a, Dual):
+        if a.b == 0:
+            a = a.a
+        else:
+            return a.inv()
     a %= p
     if a == 0:
         raise OutOfFragment('division by a zero image in GF(p) (degenerate random point or 0/0 in the code)')
@@ -233,6 +307,8 @@ def _finv(a):
 
 def _fval_name(name):
     v = FIELD['vals'].get(name)
+    if v is None and FIELD.get('dual') and name in FIELD['dual']:
+        v = FIELD['vals'][name] = FIELD['dual'][name]
     if v is None:
         d = FIELD['decide'](name) if FIELD['decide'] is not None and isinstance(name, Atom) else None
         # the image is a function of (seed, name) only -- independent of evaluation order
@@ -288,6 +364,8 @@ class Rat:
             self.fv = None
             self.cv = None
     def _set_f(self, v):
+        if isinstance(v, Dual):
+            v = v if v.b else v.a
         self.fv = v % FIELD['p']
         if self.fv == 0 and self.cv is None:
             self.cv = Fraction(0)     # an identically vanishing value is the constant 0 (as in exact mode)
@@ -410,7 +488,7 @@ class Rat:
         return ('r', self.n.key(), self.d.key())
     def __repr__(self):
         if self.fv is not None:
-            return ('%s' % self.cv) if self.cv is not None else 'F(%d)' % self.fv
+            return ('%s' % self.cv) if self.cv is not None else 'F(%s)' % (self.fv,)
         return repr(self.n) if self.d == Poly.const(1) else '(%r)/(%r)' % (self.n, self.d)
     # comparisons produce boolean atoms
     def _cmp(self, op, o):
@@ -513,7 +591,30 @@ def atom_key(name, args, keys=None):
     return a
 
 def uf(name, *args):
+    if FIELD['on'] and FIELD.get('dual'):
+        dep = [a for a in args if isinstance(a, Rat) and isinstance(a.fv, Dual)]
+        if dep:
+            if name in ('sin', 'cos') and len(args) == 1:
+                return _dual_trig(name, args[0])
+            if name not in PREDICATE_KINDS:
+                raise OutOfFragment('dual mode: uninterpreted %s of a value that depends on the differentiation variable' % name)
     return Rat(Poly.sym(atom_key(name, args)))
+
+
+def _dual_trig(name, x):
+    """sin / cos of a + b eps where sin(a), cos(a) are known: registered by refkin.tie_angle, or a = 0."""
+    a, b = x.fv.a, x.fv.b
+    if a == 0:
+        sc = (0, 1)
+    else:
+        sc = FIELD['trig'].get(a)
+        if sc is None:
+            # an angle nobody tied (e.g. the "rotation" of a prismatic joint about its zero axis): its sine and
+            # cosine are the uninterpreted atoms of the base point, differentiated by sin' = cos, cos' = -sin
+            base = Rat._f(a)
+            sc = (Rat(Poly.sym(atom_key('sin', (base,)))).fv, Rat(Poly.sym(atom_key('cos', (base,)))).fv)
+    s_, c_ = sc
+    return Rat._f(Dual(s_, b * c_)) if name == 'sin' else Rat._f(Dual(c_, -b * s_))
 
 def widen_poly(p, w):
     """p = sum_G (prod G) * p_G over the distinct sets G of boolean atoms; each group p_G with more
